@@ -338,6 +338,17 @@ impl World {
 
 /// How far the simulated clock moves when a wait_for(d) timer fires: d rounded to whole seconds, so that the
 /// library's random backoff draws (which cannot be seeded) do not make the clock differ between two runs.
+/// The minimum wait a TimingSpec stands for: milliseconds, except for the three largest values, which stand for the
+/// 'effectively for ever' durations a policy may return (they do not fit any Instant or SystemTime when added).
+pub fn min_wait_of(m: u64) -> Duration {
+    match m {
+        u64::MAX => Duration::MAX,
+        0xffff_ffff_ffff_fffe => Duration::from_secs(u64::MAX),
+        0xffff_ffff_ffff_fffd => Duration::from_secs(1 << 63),
+        _ => Duration::from_millis(m),
+    }
+}
+
 pub fn timer_advance(d: Duration) -> i128 {
     let ms = d.min(Duration::from_secs(86_400)).as_millis() as i128;
     ((ms + 500) / 1000) * 1_000_000_000
@@ -480,7 +491,7 @@ impl PolicyEngine for SimPolicy {
             _ => PartialComplexTime::Complex(ComplexTime { wall: now.wall + d, mono: now.mono + d }),
         };
         let mut timing = match spec.min_wait_ms {
-            Some(m) => CheckTiming::builder().time(time).minimum_wait(Duration::from_millis(m)).build(),
+            Some(m) => CheckTiming::builder().time(time).minimum_wait(min_wait_of(m)).build(),
             None => CheckTiming::builder().time(time).build(),
         };
         // a policy that derives the next check time from persisted state returns the very same timing again
